@@ -82,6 +82,36 @@ Theorem C11_terminates_flat_inner : forall tbl, flat_tbl tbl -> forall n s seen,
 Proof. exact flat_terminates. Qed.
 Print Assumptions C11_terminates_flat_inner.
 
+(* ... and for ANY table — values may mention placeholders, cyclically or not — when placeholders are
+   not nested (no placeholder body, in the input or in a value, holds a prefix; defaults are then
+   plain text): resolution ends with a string or with a cycle report, never out of fuel.  U is the
+   finite set of bodies that can be met (those of the input and of the values), L bounds the length
+   of the values; bound: |U| * (L+1) + |input| + 1.  Every expansion of a value puts one more body of U
+   on the visited stack; meeting one that is already there is the reported cycle. *)
+Theorem C11_terminates_unnested_partial : forall tbl U L, unnested_tbl tbl U L ->
+  forall s, scan_ok U s -> length s <= L ->
+  resolve_top tbl (S (length U * S L + length s)) s <> ROut.
+Proof. exact unnested_terminates_top. Qed.
+Print Assumptions C11_terminates_unnested_partial.
+
+(* non-vacuity of the hypotheses, on a cyclic table: a -> ${b}, b -> x${a:d}, and the cycle is reported *)
+Example C11_unnested_ex :
+  let a := [TChr 1] in let b := [TChr 2] in
+  let tbl := tbl_of [(a, [TPre; TChr 2; TSuf]); (b, [TChr 9; TPre; TChr 1; TSep; TChr 7; TSuf])] in
+  let U := [a; b; [TChr 1; TSep; TChr 7]] in
+  let s := [TChr 0; TPre; TChr 1; TSuf] in
+  scan_ok U s /\ length s <= 6 /\
+  scan_ok U [TPre; TChr 2; TSuf] /\ scan_ok U [TChr 9; TPre; TChr 1; TSep; TChr 7; TSuf] /\
+  resolve_top tbl (S (length U * 7 + length s)) s = RCycle b.
+Proof.
+  cbv zeta. split; [|split; [|split; [|split]]].
+  - eapply so_ph; [reflexivity|reflexivity|now left|reflexivity|]. apply so_none. reflexivity.
+  - simpl. repeat constructor.
+  - eapply so_ph; [reflexivity|reflexivity|right; now left|reflexivity|]. apply so_none. reflexivity.
+  - eapply so_ph; [reflexivity|reflexivity|right; right; now left|reflexivity|]. apply so_none. reflexivity.
+  - vm_compute. reflexivity.
+Qed.
+
 (* the earlier, weaker form: pure-text values, inputs without separators, bound by length *)
 Theorem C11_terminates_text : forall tbl, chars_tbl tbl -> forall s, nosep s = true ->
   exists r, resolve_top tbl (S (length s)) s = ROk r.
